@@ -124,13 +124,18 @@ def run(tier, seed):
     judge = lifecycle.Judge()
     for k, b in enumerate(behs):
         lifecycle.replay(b, k + seed, judge)
+    # every (state, action) pair of the bounded model, each along a shortest path
+    ebehs, eres = lifecycle.edge_behaviours(4 if tier == "quick" else 5)
+    for k, b in enumerate(ebehs):
+        lifecycle.replay(b, k + seed, judge)
     if judge.solves == 0:
         raise tlcrun.MachineryError("vacuity: no SolvePDE step was replayed")
     report_failures(rep, judge, ("C09_",))
     tr = traces(rep, tier, seed)
     cov = {
         "states": res["distinct"] + sim["states"] + tr["states"], "transitions": res["states"] + sim["states"] + tr["states"],
-        "traces_validated_against_impl": len(behs) + tr["traces"], "evaluations": judge.steps + tr["events"],
+        "traces_validated_against_impl": len(behs) + len(ebehs) + tr["traces"],
+        "state_graph_edges_replayed": len(ebehs), "evaluations": judge.steps + tr["events"],
         "recorded_traces": tr,
         "distinct_nontrivial": len({canon_hash([[r["name"], r["args"]] for r in b]) for b in behs if len(b) > 3}),
         "rule": "exhaustive: FVLifecycle with 3 variables, 3 BC objects, all histories to the depth of the tier over the "
